@@ -2,6 +2,9 @@ package c09
 
 import (
 	"fmt"
+	"runtime"
+
+	"github.com/dapr/kit/events/ratelimiting"
 	"sync/atomic"
 	"testing"
 	"testing/synctest"
@@ -18,6 +21,10 @@ import (
 // quiet window had run out). Whatever the order in which the limiter's goroutines then run: no Add is lost
 // - after the last Add a signal follows - and signals never exceed Adds.
 func runFeedback(t *testing.T, idx int, rng *mon.RNG) {
+	if idx%3 == 2 {
+		runPingPong(t, idx, rng)
+		return
+	}
 	c := genCfg(rng)
 	shape := []string{"cap=1", "idle"}[idx%2]
 	if shape == "cap=1" {
@@ -81,6 +88,104 @@ func runFeedback(t *testing.T, idx int, rng *mon.RNG) {
 		}
 		if cand := w.shutdown("close"); cand != "" {
 			reportShutdownWedge(w, "feedback-shutdown", cand)
+			w.unstick()
+		}
+	})
+	finish(idx, w, res, true)
+}
+
+// runPingPong: a PROMPT consumer (already waiting in its receive) that answers every signal with exactly
+// one Add, on a limiter with a pending-events cap of 1. "Every later Add is followed by a signal ... as
+// soon as the pending-events cap is reached": each of these Adds reaches the cap by itself, so the whole
+// chain of n answers completes without any virtual time passing - at the first quiescent point after the
+// opening Add, 1+n signals have been received for 1+n Adds. An Add whose wake-up is dropped shows as a
+// chain that stops until the quiet window runs out. Half of the cases run on one P, where the order in
+// which the limiter's helper goroutines get to run is the run queue's.
+func runPingPong(t *testing.T, idx int, rng *mon.RNG) {
+	c := genCfg(rng)
+	c.MaxPending = 1
+	n := rng.Range(5, 40)
+	oneP := (idx/3)%2 == 0
+	// parked: the opening Adds are made while the run loop is busy (stopped at the top of its loop), so
+	// their wake-up helpers are parked on the input channel when the loop gets to them
+	parked := (idx/6)%2 == 0
+	placed := 1 + (idx/12)%2
+	desc := fmt.Sprintf("feedback pingpong %s answers=%d oneP=%v openingAddsWhileLoopBusy=%v(%d)", c, n, oneP, parked, placed)
+	rec.Begin(idx, desc)
+	w := &world{idx: idx, mode: "pingpong", c: c}
+	w.steps = []string{desc}
+	if oneP {
+		defer runtime.GOMAXPROCS(runtime.GOMAXPROCS(1))
+	}
+	res := mon.Bubble(t, func() {
+		var budget atomic.Int32
+		w.onSignal = func(int) {
+			if budget.Add(-1) >= 0 {
+				w.add()
+			}
+		}
+		h := w.hook
+		ratelimiting.VerifHook.Store(&h)
+		defer ratelimiting.VerifHook.Store(nil)
+		w.start()
+		synctest.Wait()
+		for round := 0; round < 3 && !w.viol; round++ {
+			if parked {
+				// one Add makes the loop go round; it stops at the top of the next iteration
+				w.mu.Lock()
+				w.armHook, w.armN = "loop.top", 1
+				w.mu.Unlock()
+				w.step("add (makes the loop go round)")
+				w.add()
+				synctest.Wait()
+				if !w.parked.Load() {
+					rec.Inconclusive(idx, "pingpong: the run loop did not reach loop.top", desc)
+					w.rl.Close()
+					return
+				}
+			}
+			budget.Store(int32(n))
+			t0 := time.Now()
+			before := len(w.sigsSnapshot())
+			w.step("add")
+			w.add()
+			if parked {
+				for i := 1; i < placed; i++ {
+					w.add()
+				}
+				synctest.Wait()
+				rec.Count("pingpong.opening_adds_while_loop_busy", 1)
+				w.step("resume")
+				w.parked.Store(false)
+				w.resume <- struct{}{}
+			}
+			synctest.Wait()
+			got := len(w.sigsSnapshot()) - before
+			if time.Since(t0) != 0 {
+				w.violation("pingpong/harness-time-moved", "virtual time moved during a quiescence wait")
+				return
+			}
+			if got != 1+n {
+				w.mu.Lock()
+				adds := len(w.adds)
+				w.mu.Unlock()
+				w.violation("cap-reached-not-signalled-at-once/pingpong", fmt.Sprintf("cap=1, prompt consumer answering each signal with one Add: after the opening Add the chain should run through %d answers at the same instant; at quiescence %d signals were received (%d Adds made so far in total) - an Add that reached the cap is waiting for the quiet window to end", n, got, adds))
+				return
+			}
+			rec.Count("pingpong.chains_completed_in_one_instant", 1)
+			// let the window run out so that the next round starts idle
+			time.Sleep(3*c.Max + 1)
+			synctest.Wait()
+			w.drained = true
+			w.invariants(false)
+		}
+		if w.viol {
+			w.unstick()
+			w.rl.Close()
+			return
+		}
+		if cand := w.shutdown("close"); cand != "" {
+			reportShutdownWedge(w, "pingpong-shutdown", cand)
 			w.unstick()
 		}
 	})
